@@ -117,6 +117,8 @@ Definition nth_num (l : list Z) (i : nat) : res Z := match nth_error l i with So
 Definition iter_res (n : Z) (f : term -> res term) (t : term) : res term :=
   N.iter (Z.to_N n) (fun r => bind r f) (ROk t).
 Definition iter_tot (n : Z) (f : term -> term) (t : term) : term := N.iter (Z.to_N n) f t.
+(* REP (CSI Pn b, after the fix): `min(num, width.saturating_mul(height))` copies - one screen full *)
+Definition rep_limit (t : term) : Z := sat_mul (tw t) (th t).
 
 (* ---- SGR --------------------------------------------------------------------------------------- *)
 Definition COLOR_OFFSETS (i : Z) : Z :=      (* constants::COLOR_OFFSETS = [0, 4, 2, 6, 1, 5, 3, 7] *)
@@ -281,14 +283,28 @@ Definition hex_val (c : Z) : option Z :=            (* position in HEX_TABLE = b
 Definition to_upper (c : Z) : Z := if (97 <=? c) && (c <=? 122) then c - 32 else c.
 Inductive hexst := HFirst | HSecond (c : Z) | HRepeat (n : Z).
 Definition repeat_str (n : Z) (s : list Z) : list Z := N.iter (Z.to_N n) (fun acc => acc ++ s) [].
+(* Parser::push_repeat_group (after the fix): `count` copies of the group are appended unless the macro would then hold more than
+   MAX_MACRO_SIZE characters (Gen/MacroLimit.v, read from src/parsers/ansi/mod.rs): None = that error *)
+Definition push_group (rec rep_rec : list Z) (rep_n : Z) : option (list Z) :=
+  if MAX_MACRO_SIZE <? zlen rec + Z.max 0 rep_n * zlen rep_rec then None
+  else Some (rec ++ (match rep_rec with [] => [] | _ => repeat_str rep_n rep_rec end)).   (* `group.repeat(count)`: of an empty group it is empty, whatever the count (no loop) *)
+(* the end of parse_hex_macro_sequence: a pending group is appended, the finished macro is stored unless it is larger than MAX_MACRO_SIZE *)
+Definition hex_finish (read_repeat : bool) (rep_rec : list Z) (rep_n : Z) (rec : list Z) : option (list Z) :=
+  match (if read_repeat then push_group rec rep_rec rep_n else Some rec) with
+  | Some m => if MAX_MACRO_SIZE <? zlen m then None else Some m
+  | None => None
+  end.
 (* parse_hex_macro_sequence: Some macro | None = Err *)
 Fixpoint hex_macro (s : list Z) (stt : hexst) (read_repeat : bool) (rep_rec : list Z) (rep_n : Z) (rec : list Z) : option (list Z) :=
   match s with
-  | [] => Some (if read_repeat then rec ++ repeat_str rep_n rep_rec else rec)
+  | [] => hex_finish read_repeat rep_rec rep_n rec
   | ch :: r =>
     match stt with
     | HFirst =>
-      if (ch =? 59) && read_repeat then hex_macro r HFirst false rep_rec rep_n (rec ++ repeat_str rep_n rep_rec)
+      if (ch =? 59) && read_repeat then match push_group rec rep_rec rep_n with
+                                        | Some rec' => hex_macro r HFirst false rep_rec rep_n rec'
+                                        | None => None
+                                        end
       else if ch =? 33 then hex_macro r (HRepeat 0) read_repeat rep_rec rep_n rec
       else hex_macro r (HSecond ch) read_repeat rep_rec rep_n rec
     | HSecond f =>
@@ -528,7 +544,7 @@ Definition csi_final (t : term) (p : pst) (is_start : bool) (ch : Z) : outcome :
   else if ch =? 83 then ok (iter_tot (first_or ns 1) scroll_up t) d               (* S *)
   else if ch =? 84 then ok (iter_tot (first_or ns 1) scroll_down t) d             (* T *)
   else if ch =? 98 then                                                           (* b  REP *)
-    lift (iter_res (first_or ns 1) (fun x => print_char x (print_cell t (last_char p))) t) d
+    lift (iter_res (Z.min (first_or ns 1) (rep_limit t)) (fun x => print_char x (print_cell t (last_char p))) t) d
   else if ch =? 103 then                                                          (* g  TBC *)
     if 1 <? nlen ns then err t d
     else let n := first_or ns 0 in
